@@ -38,9 +38,34 @@ for d in sorted(glob.glob(os.path.join(V, "seeded", "*"))):
 seeded_md = "| seed | property | change | detected | by which check / signature |\n|---|---|---|---|---|\n" + "\n".join(rows)
 seeded_md = ("%d seeded changes (each: compiles, pinned suite unchanged, own demonstration fails with it and passes without — confirmed independently).\n\n" % len(rows)) + seeded_md
 
+# per-property status from claims + last evidence
+prows = []
+for line in open(os.path.join(V, "properties.jsonl")):
+    pr = json.loads(line)
+    pid = pr["id"]
+    cl = {}
+    cp = os.path.join(V, "claims", pid + ".json")
+    if os.path.exists(cp):
+        cl = json.load(open(cp))
+    ev = {}
+    ep = os.path.join(V, "evidence", pid + ".json")
+    if os.path.exists(ep):
+        try:
+            ev = json.load(open(ep))
+        except Exception:
+            ev = {}
+    cov = ev.get("coverage", {})
+    seeds = [r for r in rows if r.startswith("| %s-" % pid)]
+    caught = sum(1 for r in seeds if "| yes |" in r)
+    prows.append("| %s | %s | %s | %s | %s/%s | %s |" % (
+        pid, esc(pr["title"])[:60], cov.get("obligations", "?"), cov.get("evaluations", "?"),
+        caught, len(seeds), esc(cl.get("text", "(not claimed)"))[:420] + "…"))
+status_md = ("| id | property | theorems | evaluations of the last quick/thorough run | seeds caught | what is proved / validated (from claims/<id>.json, truncated) |\n"
+             "|---|---|---|---|---|---|\n" + "\n".join(prows))
+
 p = os.path.join(V, "DESIGN.md")
 s = open(p).read()
-for name, body in (("FINDINGS", findings_md), ("SEEDED", seeded_md)):
+for name, body in (("FINDINGS", findings_md), ("SEEDED", seeded_md), ("STATUS", status_md)):
     b, e = "<!-- BEGIN GENERATED %s -->" % name, "<!-- END GENERATED %s -->" % name
     if b in s:
         s = re.sub(re.escape(b) + r".*?" + re.escape(e), lambda _m: b + "\n" + body + "\n" + e, s, flags=re.S)
